@@ -117,3 +117,109 @@ def judge_transfer(S, T, text, J):
     return {'ok': not fails, 'observed': {'source': {s.name: v for s, v in src.contents.items()},
                                           'dest': {s.name: v for s, v in to.contents.items()},
                                           'dest_volume': to.volume}, 'expected': exp, 'failed': fails[:5]}
+
+
+def _call(fn, exp_ok, args_fp):
+    """run fn(); returns (result or None, verdict dict or None)"""
+    try:
+        return fn(), None
+    except ValueError as e:
+        fails = [] if not exp_ok else [f"refused a feasible request: {e}"]
+        for o, fp in args_fp:
+            if fingerprint(o) != fp:
+                fails.append("argument modified by a refused call")
+        return None, {'ok': not fails, 'observed': f'ValueError: {e}', 'expected': 'accepted' if exp_ok else 'ValueError',
+                      'failed': fails}
+    except Exception as e:
+        return None, {'ok': False, 'observed': repr(e), 'expected': 'accepted' if exp_ok else 'ValueError',
+                      'failed': [f'{type(e).__name__} instead of a result or ValueError']}
+
+
+def judge_add(C, sub, text):
+    den = quantity_denotation(text)
+    q, base = float(den[0]), den[1]
+    S = subspec(sub)
+    rej = bool(spec.rejects(S, base))
+    fp = fingerprint(C)
+    add_L = 0.0 if rej else q * float(spec.factor(S, base, 'L'))
+    sb = 'U' if sub.is_enzyme() else 'mol'
+    add_stored = 0.0 if rej else q * float(spec.factor(S, base, sb)) / (1 if sub.is_enzyme() else ms())
+    capL = C.max_volume * vs()
+    feasible = (not rej) and q >= 0 and measure(C, 'L') + add_L <= capL * (1 + REL) + 1e-12
+    boundary = not math.isinf(capL) and close(measure(C, 'L') + add_L, capL, 1e-6)
+    r, verdict = _call(lambda: C._add(sub, text), feasible or boundary, [(C, fp)])
+    if verdict:
+        if boundary:
+            verdict['ok'] = True
+        return verdict
+    fails = []
+    if not feasible and not boundary:
+        fails.append(f"accepted an infeasible addition ({text} to {measure(C, 'L')} L of {capL} L)")
+    if fingerprint(C) != fp:
+        fails.append("argument modified")
+    check_container(r, 'result', fails)
+    if not rej:
+        if not close(r.contents.get(sub, 0), C.contents.get(sub, 0) + add_stored):
+            fails.append(f"{sub.name}: {C.contents.get(sub, 0)} -> {r.contents.get(sub, 0)}, expected +{add_stored}")
+        for s in set(C.contents) | set(r.contents):
+            if s != sub and not close(r.contents.get(s, 0), C.contents.get(s, 0)):
+                fails.append(f"bystander {s.name} changed")
+    return {'ok': not fails, 'observed': {s.name: v for s, v in r.contents.items()}, 'expected': 'see clauses',
+            'failed': fails[:5]}
+
+
+def judge_remove(C, what):
+    fp = fingerprint(C)
+    r, verdict = _call(lambda: C.remove(what), True, [(C, fp)])
+    if verdict:
+        return verdict
+    fails = []
+    if fingerprint(C) != fp:
+        fails.append("argument modified")
+    sel = (lambda s: s == what) if not isinstance(what, int) else (lambda s: s._type == what)
+    for s in set(C.contents) | set(r.contents):
+        if sel(s):
+            if s in r.contents:
+                fails.append(f"selected substance {s.name} still present")
+        elif not (s in r.contents and close(r.contents[s], C.contents.get(s, 0))) and s in C.contents:
+            fails.append(f"{s.name} not kept unchanged: {C.contents.get(s)} -> {r.contents.get(s)}")
+        elif s not in C.contents:
+            fails.append(f"{s.name} appeared")
+    check_container(r, 'result', fails)
+    if r.name != C.name or r.max_volume != C.max_volume:
+        fails.append("name/capacity changed")
+    return {'ok': not fails, 'observed': {'contents': {s.name: v for s, v in r.contents.items()}, 'volume': r.volume},
+            'expected': 'selected gone, others kept, volume = sum', 'failed': fails[:5]}
+
+
+def judge_fill_to(C, solvent, text):
+    den = quantity_denotation(text)
+    q, base = float(den[0]), den[1]
+    fp = fingerprint(C)
+    cur = measure(C, base) if base in ('L', 'g', 'mol') else 0.0
+    S = subspec(solvent)
+    capL = C.max_volume * vs()
+    ok_shape = q > 0 and base in ('L', 'g', 'mol') and not solvent.is_enzyme() and q >= cur * (1 - REL)
+    add_L = (q - cur) * float(spec.factor(S, base, 'L')) if ok_shape else 0.0
+    feasible = ok_shape and measure(C, 'L') + add_L <= capL * (1 + REL) + 1e-12
+    boundary = (q > 0 and close(q, cur, 1e-6)) or (not math.isinf(capL) and close(measure(C, 'L') + add_L, capL, 1e-6))
+    r, verdict = _call(lambda: C.fill_to(solvent, text), feasible or boundary, [(C, fp)])
+    if verdict:
+        if boundary:
+            verdict['ok'] = True
+        return verdict
+    fails = []
+    if not feasible and not boundary:
+        fails.append(f"accepted an infeasible fill (target {q} {base}, currently {cur} {base})")
+    if fingerprint(C) != fp:
+        fails.append("argument modified")
+    check_container(r, 'result', fails)
+    if feasible and not close(measure(r, base), q):
+        fails.append(f"total is {measure(r, base)} {base}, target {q} {base}")
+    for s in set(C.contents) | set(r.contents):
+        if s != solvent and not close(r.contents.get(s, 0), C.contents.get(s, 0)):
+            fails.append(f"bystander {s.name} changed")
+    if r.contents.get(solvent, 0) < C.contents.get(solvent, 0) - 1e-9:
+        fails.append(f"solvent decreased: {C.contents.get(solvent, 0)} -> {r.contents.get(solvent, 0)}")
+    return {'ok': not fails, 'observed': {'contents': {s.name: v for s, v in r.contents.items()}, 'volume': r.volume},
+            'expected': f'total {q} {base}', 'failed': fails[:5]}
